@@ -354,7 +354,11 @@ package go9p
 
 //@ func SetRreadCount(fc, count)
 //@   property C01 C12 C14
-//@   requires fc != nil && rreadinit(fc) && count <= len(fc.Pkt) - 11
+//@   requires fc != nil
+//@   requires fc.Pkt != nil && len(fc.Pkt) >= 11
+//@   requires len(fc.Pkt) <= 4294967295
+//@   requires fc.Data == fc.Pkt[11:len(fc.Pkt)]
+//@   requires count <= len(fc.Pkt) - 11
 //@   ensures  fc.Size == 11 + count && fc.Count == count && len(fc.Pkt) == 11 + count
 //@   ensures  obj(fc.Pkt) == obj(old(fc.Pkt)) && off(fc.Pkt) == off(old(fc.Pkt)) && fc.Data == fc.Pkt[11:11+count]
 //@   ensures  u32le(fc.Pkt, 0) == 11 + count && u32le(fc.Pkt, 7) == count
@@ -465,6 +469,17 @@ package go9p
 // ---------------------------------------------------------------------------
 // Decoding (C02: total on arbitrary bytes; C01: inverse of the constructors)
 
+// lengths of the strings of a stat record as found in the bytes, and the exact condition under which it decodes
+//@ pure s1(b, o) = u16le(b, o+41)
+//@ pure s2(b, o) = u16le(b, o+43+s1(b, o))
+//@ pure s3(b, o) = u16le(b, o+45+s1(b, o)+s2(b, o))
+//@ pure s4(b, o) = u16le(b, o+47+s1(b, o)+s2(b, o)+s3(b, o))
+//@ pure s14(b, o) = s1(b, o)+s2(b, o)+s3(b, o)+s4(b, o)
+//@ pure s5(b, o) = u16le(b, o+49+s14(b, o))
+//@ pure statlen(b, o, dotu) = 49 + s14(b, o) + ite(dotu, 14 + s5(b, o), 0)
+//@ pure statfits(b, o, n, dotu) = 43+s1(b, o) <= n && 45+s1(b, o)+s2(b, o) <= n && 47+s1(b, o)+s2(b, o)+s3(b, o) <= n && 49+s14(b, o) <= n
+//@      && (dotu ==> 51+s14(b, o) <= n && 63+s14(b, o)+s5(b, o) <= n)
+
 // decoded stat: like wstat, but the size field is taken as found (the decoder does not validate it)
 //@ pure rstat(b, o, d, dotu) = u16le(b, o) == d.Size && u16le(b, o+2) == d.Type && u32le(b, o+4) == d.Dev
 //@      && wqid(b, o+8, d.Qid) && u32le(b, o+21) == d.Mode && u32le(b, o+25) == d.Atime && u32le(b, o+29) == d.Mtime
@@ -479,6 +494,7 @@ package go9p
 //@   ensures  err != nil ==> r == nil
 //@   ensures  err == nil ==> len(r) <= len(buf) && r == buf[len(buf)-len(r):]
 //@   ensures  [dec] err == nil ==> rstat(buf, 0, d, dotu) && len(buf) - len(r) == statsize(d, dotu)
+//@   ensures  [acc] err == nil <==> len(buf) >= 41 && statfits(buf, 0, len(buf), dotu)
 //@   ensures  [dec.nodotu] err == nil && !dotu ==> d.Uidnum == 4294967295 && d.Gidnum == 4294967295 && d.Muidnum == 4294967295
 //@   ensures  err == nil ==> len(d.Name) <= 65535 && len(d.Uid) <= 65535 && len(d.Gid) <= 65535 && len(d.Muid) <= 65535 && (dotu ==> len(d.Ext) <= 65535)
 //@   ensures  !dotu ==> d.Ext == old(d.Ext)
@@ -489,6 +505,7 @@ package go9p
 //@   ensures  err != nil ==> d == nil && b == nil && amt == 0
 //@   ensures  err == nil ==> d != nil && fresh(d) && 0 <= amt && amt <= len(buf) && b == buf[amt:] && strsok(d)
 //@   ensures  [dec] err == nil ==> rstat(buf, 0, d, dotu) && amt == statsize(d, dotu)
+//@   ensures  [acc] err == nil <==> len(buf) >= ite(dotu, 63, 49) && statfits(buf, 0, len(buf), dotu)
 //@   assigns  fresh
 
 //@ pure hdrok(buf) = len(buf) >= 7 && 7 <= u32le(buf, 0) && u32le(buf, 0) <= len(buf)
@@ -525,6 +542,8 @@ package go9p
 //@   ensures  [acc.Rwrite] hdrok(buf) && u8(buf, 4) == 119 ==> (err == nil <==> u32le(buf, 0) == 11)
 //@   ensures  [acc.Tfid] hdrok(buf) && (u8(buf, 4) == 120 || u8(buf, 4) == 122 || u8(buf, 4) == 124) ==> (err == nil <==> u32le(buf, 0) == 11)
 //@   ensures  [acc.Rwalk] hdrok(buf) && u8(buf, 4) == 111 ==> (err == nil <==> u32le(buf, 0) >= 9 && u32le(buf, 0) == 9 + 13 * u16le(buf, 7))
+//@   ensures  [acc.Rstat] hdrok(buf) && u8(buf, 4) == 125 ==> (err == nil <==> u32le(buf, 0) >= 50 && statfits(buf, 9, u32le(buf, 0) - 9, dotu) && u32le(buf, 0) == 9 + statlen(buf, 9, dotu))
+//@   ensures  [acc.Twstat] hdrok(buf) && u8(buf, 4) == 126 ==> (err == nil <==> u32le(buf, 0) >= 54 && statfits(buf, 13, u32le(buf, 0) - 13, dotu) && u32le(buf, 0) == 13 + statlen(buf, 13, dotu))
 //@   ensures  [dec.version] err == nil && (fc.Type == 100 || fc.Type == 101) ==> fc.Msize == u32le(buf, 7) && wstr(buf, 11, fc.Version) && fcsz == 13 + len(fc.Version) && len(fc.Version) <= 65535
 //@   ensures  [dec.Tauth] err == nil && fc.Type == 102 ==> fc.Afid == u32le(buf, 7) && wstr(buf, 11, fc.Uname) && wstr(buf, 13+len(fc.Uname), fc.Aname)
 //@            && len(fc.Uname) <= 65535 && len(fc.Aname) <= 65535
@@ -569,3 +588,183 @@ package go9p
 //@     invariant p != nil && within(p, buf, fc.Size) && others_unchanged(fc.Wqid) && len(p) >= 13 * (m - i)
 //@     invariant obj(p) == obj(buf) && off(p) == off(buf) + 9 + 13*i && len(p) == fc.Size - 9 - 13*i && m == u16le(buf, 7)
 //@     invariant forall k int :: 0 <= k && k < i ==> wqid(buf, 9+13*k, fc.Wqid[k])
+
+// ---------------------------------------------------------------------------
+// Round trips (ghost drivers in verif_ghost.go): decode(encode(fields)) = fields, consuming exactly the packet.
+
+//@ pure dirsame(a, d, dotu) = a.Type == d.Type && a.Dev == d.Dev && qideq(a.Qid, d.Qid) && a.Mode == d.Mode && a.Atime == d.Atime
+//@      && a.Mtime == d.Mtime && a.Length == d.Length && strsame(a.Name, d.Name) && strsame(a.Uid, d.Uid) && strsame(a.Gid, d.Gid)
+//@      && strsame(a.Muid, d.Muid) && (dotu ==> strsame(a.Ext, d.Ext) && a.Uidnum == d.Uidnum && a.Gidnum == d.Gidnum && a.Muidnum == d.Muidnum)
+
+//@ func vrtTversion(fc, msize, version, dotu) (perr, fc2, n, err)
+//@   property C01 C02
+//@   requires fc != nil && len(version) <= 65535
+//@   ensures  perr == nil ==> err == nil && fc2 != nil && n == len(fc.Pkt) && fc2.Tag == 65535
+//@   ensures  perr == nil ==> fc2.Type == 100 && fc2.Msize == msize && strsame(fc2.Version, version)
+
+//@ func vrtRversion(fc, msize, version, dotu) (perr, fc2, n, err)
+//@   property C01 C02
+//@   requires fc != nil && len(version) <= 65535
+//@   ensures  perr == nil ==> err == nil && fc2 != nil && n == len(fc.Pkt) && fc2.Tag == 65535
+//@   ensures  perr == nil ==> fc2.Type == 101 && fc2.Msize == msize && strsame(fc2.Version, version)
+
+//@ func vrtTauth(fc, fid, uname, aname, unamenum, dotu) (perr, fc2, n, err)
+//@   property C01 C02
+//@   requires fc != nil && len(uname) <= 65535 && len(aname) <= 65535
+//@   ensures  perr == nil ==> err == nil && fc2 != nil && n == len(fc.Pkt) && fc2.Tag == 65535
+//@   ensures  perr == nil ==> fc2.Type == 102 && fc2.Afid == fid && strsame(fc2.Uname, uname) && strsame(fc2.Aname, aname) && (dotu ==> fc2.Unamenum == unamenum)
+
+//@ func vrtTattach(fc, fid, afid, uname, aname, unamenum, dotu) (perr, fc2, n, err)
+//@   property C01 C02
+//@   requires fc != nil && len(uname) <= 65535 && len(aname) <= 65535
+//@   ensures  perr == nil ==> err == nil && fc2 != nil && n == len(fc.Pkt) && fc2.Tag == 65535
+//@   ensures  perr == nil ==> fc2.Type == 104 && fc2.Fid == fid && fc2.Afid == afid && strsame(fc2.Uname, uname) && strsame(fc2.Aname, aname) && (dotu ==> fc2.Unamenum == unamenum)
+
+//@ func vrtRauth(fc, aqid, dotu) (perr, fc2, n, err)
+//@   property C01 C02
+//@   requires fc != nil && aqid != nil
+//@   ensures  perr == nil ==> err == nil && fc2 != nil && n == len(fc.Pkt) && fc2.Tag == 65535
+//@   ensures  perr == nil ==> fc2.Type == 103 && qideq(fc2.Qid, aqid)
+
+//@ func vrtRattach(fc, aqid, dotu) (perr, fc2, n, err)
+//@   property C01 C02
+//@   requires fc != nil && aqid != nil
+//@   ensures  perr == nil ==> err == nil && fc2 != nil && n == len(fc.Pkt) && fc2.Tag == 65535
+//@   ensures  perr == nil ==> fc2.Type == 105 && qideq(fc2.Qid, aqid)
+
+//@ func vrtRerror(fc, ename, errornum, dotu) (perr, fc2, n, err)
+//@   property C01 C02
+//@   requires fc != nil && len(ename) <= 65535 && Akaros != nil
+//@   ensures  perr == nil ==> err == nil && fc2 != nil && n == len(fc.Pkt) && fc2.Tag == 65535
+//@   ensures  perr == nil ==> fc2.Type == 107 && strsame(fc2.Error, fc.Error) && (!deref(Akaros) ==> strsame(fc2.Error, ename)) && (dotu ==> fc2.Errornum == errornum)
+
+//@ func vrtTflush(fc, oldtag, dotu) (perr, fc2, n, err)
+//@   property C01 C02
+//@   requires fc != nil
+//@   ensures  perr == nil ==> err == nil && fc2 != nil && n == len(fc.Pkt) && fc2.Tag == 65535
+//@   ensures  perr == nil ==> fc2.Type == 108 && fc2.Oldtag == oldtag
+
+//@ func vrtRflush(fc, dotu) (perr, fc2, n, err)
+//@   property C01 C02
+//@   requires fc != nil
+//@   ensures  perr == nil ==> err == nil && fc2 != nil && n == len(fc.Pkt) && fc2.Tag == 65535
+//@   ensures  perr == nil ==> fc2.Type == 109
+
+//@ func vrtTopen(fc, fid, mode, dotu) (perr, fc2, n, err)
+//@   property C01 C02
+//@   requires fc != nil
+//@   ensures  perr == nil ==> err == nil && fc2 != nil && n == len(fc.Pkt) && fc2.Tag == 65535
+//@   ensures  perr == nil ==> fc2.Type == 112 && fc2.Fid == fid && fc2.Mode == mode
+
+//@ func vrtRopen(fc, qid, iounit, dotu) (perr, fc2, n, err)
+//@   property C01 C02
+//@   requires fc != nil && qid != nil
+//@   ensures  perr == nil ==> err == nil && fc2 != nil && n == len(fc.Pkt) && fc2.Tag == 65535
+//@   ensures  perr == nil ==> fc2.Type == 113 && qideq(fc2.Qid, qid) && fc2.Iounit == iounit
+
+//@ func vrtRcreate(fc, qid, iounit, dotu) (perr, fc2, n, err)
+//@   property C01 C02
+//@   requires fc != nil && qid != nil
+//@   ensures  perr == nil ==> err == nil && fc2 != nil && n == len(fc.Pkt) && fc2.Tag == 65535
+//@   ensures  perr == nil ==> fc2.Type == 115 && qideq(fc2.Qid, qid) && fc2.Iounit == iounit
+
+//@ func vrtTcreate(fc, fid, name, perm, mode, ext, dotu) (perr, fc2, n, err)
+//@   property C01 C02
+//@   requires fc != nil && len(name) <= 65535 && len(ext) <= 65535
+//@   ensures  perr == nil ==> err == nil && fc2 != nil && n == len(fc.Pkt) && fc2.Tag == 65535
+//@   ensures  perr == nil ==> fc2.Type == 114 && fc2.Fid == fid && strsame(fc2.Name, name) && fc2.Perm == perm && fc2.Mode == mode && (dotu ==> strsame(fc2.Ext, ext))
+
+//@ func vrtTread(fc, fid, offset, count, dotu) (perr, fc2, n, err)
+//@   property C01 C02
+//@   requires fc != nil
+//@   ensures  perr == nil ==> err == nil && fc2 != nil && n == len(fc.Pkt) && fc2.Tag == 65535
+//@   ensures  perr == nil ==> fc2.Type == 116 && fc2.Fid == fid && fc2.Offset == offset && fc2.Count == count
+
+//@ func vrtRread(fc, data, dotu) (perr, fc2, n, err)
+//@   property C01 C02
+//@   requires fc != nil && len(data) <= 4294967284 && obj(data) != obj(fc.Buf)
+//@   ensures  perr == nil ==> err == nil && fc2 != nil && n == len(fc.Pkt) && fc2.Tag == 65535
+//@   ensures  perr == nil ==> fc2.Type == 117 && fc2.Count == len(data) && len(fc2.Data) == len(data) && byteseqold(fc2.Data, 0, data, 0, len(data))
+
+//@ func vrtTwrite(fc, fid, offset, count, data, dotu) (perr, fc2, n, err)
+//@   property C01 C02
+//@   requires fc != nil && len(data) <= 4294967265 && count == len(data) && obj(data) != obj(fc.Buf)
+//@   ensures  perr == nil ==> err == nil && fc2 != nil && n == len(fc.Pkt) && fc2.Tag == 65535
+//@   ensures  perr == nil ==> fc2.Type == 118 && fc2.Fid == fid && fc2.Offset == offset && fc2.Count == count && len(fc2.Data) == len(data) && byteseqold(fc2.Data, 0, data, 0, len(data))
+
+//@ func vrtRwrite(fc, count, dotu) (perr, fc2, n, err)
+//@   property C01 C02
+//@   requires fc != nil
+//@   ensures  perr == nil ==> err == nil && fc2 != nil && n == len(fc.Pkt) && fc2.Tag == 65535
+//@   ensures  perr == nil ==> fc2.Type == 119 && fc2.Count == count
+
+//@ func vrtTclunk(fc, fid, dotu) (perr, fc2, n, err)
+//@   property C01 C02
+//@   requires fc != nil
+//@   ensures  perr == nil ==> err == nil && fc2 != nil && n == len(fc.Pkt) && fc2.Tag == 65535
+//@   ensures  perr == nil ==> fc2.Type == 120 && fc2.Fid == fid
+
+//@ func vrtRclunk(fc, dotu) (perr, fc2, n, err)
+//@   property C01 C02
+//@   requires fc != nil
+//@   ensures  perr == nil ==> err == nil && fc2 != nil && n == len(fc.Pkt) && fc2.Tag == 65535
+//@   ensures  perr == nil ==> fc2.Type == 121
+
+//@ func vrtTremove(fc, fid, dotu) (perr, fc2, n, err)
+//@   property C01 C02
+//@   requires fc != nil
+//@   ensures  perr == nil ==> err == nil && fc2 != nil && n == len(fc.Pkt) && fc2.Tag == 65535
+//@   ensures  perr == nil ==> fc2.Type == 122 && fc2.Fid == fid
+
+//@ func vrtRremove(fc, dotu) (perr, fc2, n, err)
+//@   property C01 C02
+//@   requires fc != nil
+//@   ensures  perr == nil ==> err == nil && fc2 != nil && n == len(fc.Pkt) && fc2.Tag == 65535
+//@   ensures  perr == nil ==> fc2.Type == 123
+
+//@ func vrtTstat(fc, fid, dotu) (perr, fc2, n, err)
+//@   property C01 C02
+//@   requires fc != nil
+//@   ensures  perr == nil ==> err == nil && fc2 != nil && n == len(fc.Pkt) && fc2.Tag == 65535
+//@   ensures  perr == nil ==> fc2.Type == 124 && fc2.Fid == fid
+
+//@ func vrtRwstat(fc, dotu) (perr, fc2, n, err)
+//@   property C01 C02
+//@   requires fc != nil
+//@   ensures  perr == nil ==> err == nil && fc2 != nil && n == len(fc.Pkt) && fc2.Tag == 65535
+//@   ensures  perr == nil ==> fc2.Type == 127
+
+//@ func vrtRstat(fc, d, dotu) (perr, fc2, n, err)
+//@   property C01 C02
+//@   requires fc != nil && d != nil && strsok(d) && statsize(d, dotu) <= 65535
+//@   ensures  perr == nil ==> err == nil && fc2 != nil && n == len(fc.Pkt) && fc2.Tag == 65535
+//@   ensures  perr == nil ==> fc2.Type == 125 && dirsame(fc2.Dir, d, dotu) && fc2.Dir.Size == statsize(d, dotu) - 2
+
+//@ func vrtTwstat(fc, fid, d, dotu) (perr, fc2, n, err)
+//@   property C01 C02
+//@   requires fc != nil && d != nil && strsok(d) && statsize(d, dotu) <= 65535
+//@   ensures  perr == nil ==> err == nil && fc2 != nil && n == len(fc.Pkt) && fc2.Tag == 65535
+//@   ensures  perr == nil ==> fc2.Type == 126 && fc2.Fid == fid && dirsame(fc2.Dir, d, dotu) && fc2.Dir.Size == statsize(d, dotu) - 2
+
+//@ func vrtRwalk(fc, wqids, dotu) (perr, fc2, n, err)
+//@   property C01 C02
+//@   requires fc != nil && len(wqids) <= 65535
+//@   ensures  perr == nil ==> err == nil && fc2 != nil && n == len(fc.Pkt) && fc2.Tag == 65535
+//@   ensures  perr == nil ==> fc2.Type == 111 && len(fc2.Wqid) == len(wqids) && forall k int :: 0 <= k && k < len(wqids) ==> qideq(fc2.Wqid[k], wqids[k])
+
+//@ func vrtSetTag(fc, fid, tag, dotu) (perr, fc2, n, err)
+//@   property C01
+//@   requires fc != nil
+//@   ensures  perr == nil ==> err == nil && fc2 != nil && n == len(fc.Pkt) && fc2.Type == 120 && fc2.Fid == fid && fc2.Tag == tag && fc.Tag == tag
+//@   ensures  perr == nil ==> u16le(fc.Pkt, 5) == tag && u32le(fc.Pkt, 0) == 11 && u8(fc.Pkt, 4) == 120 && u32le(fc.Pkt, 7) == fid
+
+//@ func vrtRreadTwoStep(fc, count, actual, dotu) (perr, fc2, n, err)
+//@   property C01 C14
+//@   requires fc != nil && count <= 4294967284 && actual <= count
+//@   ensures  perr == nil ==> err == nil && fc2 != nil && n == len(fc.Pkt) && n == 11 + actual && fc2.Type == 117 && fc2.Count == actual
+//@   ensures  perr == nil ==> fc2.Data == fc.Data && len(fc.Data) == actual
+
+//@ func vrtDir(d, dotu) (b, d2, rest, amt, err)
+//@   property C01 C15
+//@   requires d != nil && strsok(d) && statsize(d, dotu) <= 65537
+//@   ensures  err == nil && d2 != nil && amt == len(b) && len(rest) == 0 && dirsame(d2, d, dotu) && d2.Size == statsize(d, dotu) - 2
